@@ -44,6 +44,7 @@ type JobCfg struct {
 	PoolAny       bool
 	NoIfConv      bool
 	MaxPaths      int
+	Workers       int // more workers than its share for a job known to be the long pole of its check
 	MaxWallS      int // wall-clock budget of the job; when it is used up the job is cut and reported as truncated (inconclusive)
 	Witnesses     int // max witnesses kept for native validation
 	QueryTimeoutMs int
